@@ -111,7 +111,7 @@ MNext ==
                         /\ IF ms = {} THEN S' = S1
                            ELSE LET mk == CHOOSE x \in ms : \A y \in ms : Cardinality(x[1].V) <= Cardinality(y[1].V)
                                     c == mk[1]
-                                IN S' = [S1 EXCEPT !.above = c.above, !.order = c.order, !.blanked = res.blank,
+                                IN S' = [S1 EXCEPT !.above = c.above, !.order = c.order, !.blanked = res.blank, !.wasCut = S1.wasCut \/ IsCut(S1, c),
                                                    !.bars = [bb \in DOMAIN S1.bars |-> IF bb \in c.V THEN [S1.bars[bb] EXCEPT !.static = FALSE, !.vis = FALSE]
                                                                                      ELSE IF res.blank THEN S1.bars[bb] ELSE [S1.bars[bb] EXCEPT !.onscr = S1.bars[bb].pend]]]
                  ELSE /\ ok' = TRUE
